@@ -18,11 +18,14 @@ RULE = ("synthetic histories for the real RelationSet: n = p1*p2 (16..31-bit pri
         "by Tonelli-Shanks + CRT), factor base of 8..40 primes, relations x^2 = sign*cofactor*prod p^k built by solving for x, "
         "cofactor in {1, large prime, p*q, p*p}; 10..400 adds with adversarial orderings (double before/after either prime, "
         "chains forcing recursive walks, stars, duplicates, trivial relations, p = q, dropped relations, odd cycle lengths); "
-        "plus single-call ops (verify, combine, pack/unpack, round trip, try_factor, final combine). "
+        "plus single-call ops (verify, combine, pack/unpack, round trip, try_factor, final combine) and real siqs/mpqs/qs "
+        "runs (64..130-bit n, single/double large primes, 1..4 threads) whose add history is recorded by the hook and replayed "
+        "by the model. "
         "non-trivial = history with at least one published combined cycle, or a single-call op with a non-degenerate operand; "
         "distinct by request line")
 MODELLED = ["relations.rs Relation::verify, RelationSet::{new,add,add_cycle,combine,combine_single,combine_double,walk_doubles}, "
             "PackedRelation::{pack,unpack}, combine (chunked products), try_factor, exponent accumulation of final_step "
+            "and final_step around the kernel solver (occurrence table, stable sort, relation filter, kernel loop) "
             "(Ymq/Model/Relations.lean); maps as association lists in key order"]
 UNMODELLED = ["bnum Uint/Int operators and num_integer::gcd are taken as Nat/Int arithmetic (1024-bit width not modelled)",
               "ZmodN operations inside relations::combine are taken as exact arithmetic modulo n (that is property C07)",
@@ -431,6 +434,36 @@ def cases(tier, rng, extended=False):
             size = rng.randint(40, 160)
         yield history_case(rng, size, style)
     yield from single_op_cases(rng, nops)
+    # real sieve runs: every relation handed to RelationSet::add is recorded under the write lock (hook),
+    # the model replays the recorded history (followup); the oracle checks the callers' contract on it
+    configs = [("siqs", 110, "dbl=1"), ("siqs", 124, "dbl=1"), ("mpqs", 100, "dbl=1 lf=100"), ("qs", 86, "dbl=1 lf=100"),
+               ("siqs", 100, "dbl=1 lf=200 threads=4"), ("mpqs", 90, "lf=300"), ("siqs", 80, ""), ("qs", 64, "lf=40"),
+               ("mpqs", 72, "dbl=1"), ("siqs", 96, "dbl=1 threads=2")]
+    reps = 1 if quick else 12
+    if extended:
+        reps *= 3
+    for _ in range(reps):
+        for alg, bits, extra in configs:
+            b = bits + rng.randint(-3, 3)
+            p1 = gen.rand_prime(rng, b // 2)
+            p2 = gen.rand_prime(rng, b - b // 2)
+            if p1 == p2:
+                continue
+            yield Case(f"sieve_history {alg} {p1 * p2} {extra}".strip(), k=False, tag=f"real/{alg}", timeout=300.0)
+    # real final_step calls: inputs, kernel vectors and divisors recorded by the hook; the model replays
+    # everything around the kernel solver (occurrence table, sort, filter, accumulation, combine, try_factor)
+    fconfigs = [("siqs", 80, 2, ""), ("mpqs", 70, 2, "dbl=1"), ("qs", 60, 2, ""), ("siqs", 110, 2, "dbl=1"),
+                ("mpqs", 96, 3, "lf=200"), ("siqs", 100, 3, ""), ("qs", 72, 3, "lf=30"), ("mpqs", 88, 4, ""),
+                ("siqs", 90, 2, "threads=3"), ("siqs", 120, 3, "dbl=1")]
+    for _ in range(reps):
+        for alg, bits, k, extra in fconfigs:
+            ps = set()
+            while len(ps) < k:
+                ps.add(gen.rand_prime(rng, max(12, bits // k + rng.randint(-2, 2))))
+            n = 1
+            for q in ps:
+                n *= q
+            yield Case(f"sieve_final {alg} {n} {extra}".strip(), k=False, tag=f"final/{alg}/{k}primes", timeout=300.0)
 
 
 # ------------------------------------------------------------------ oracle
@@ -449,10 +482,89 @@ def parse_history_answer(ans):
     return recs, fin
 
 
+def followup(case, ans):
+    """replay of a REAL recorded history through the model; expected = the real store's answer"""
+    if case.op not in ("sieve_history", "sieve_final") or " || " not in ans:
+        return None
+    parts = ans.split(" || ")
+    if len(parts) != 3 or parts[1] == "-":
+        return None
+    if case.op == "sieve_final":
+        return ("final_replay " + parts[1], parts[2])
+    return ("rs_history " + parts[1], parts[2])
+
+
+def large_ok(p):
+    return 1 < p and p + 1 < (1 << 32) and (p == 2 or p % 2 == 1)
+
+
+def contract_violation(n, maxlarge, it):
+    """the callers' contract InputOK2 (Ymq/Lemmas/RelationsInv2.lean) on one recorded add"""
+    f = it.split("|")
+    rel = parse_rel(f[-2])
+    pq = None if f[-1] == "-" else tuple(map(int, f[-1].split(",")))
+    x, c, l, fs = rel
+    if not x < n:
+        return "x >= n"
+    if not rel_valid(n, rel):
+        return "not a congruence"
+    if l < 1:
+        return "cyclelen 0"
+    for p, k in fs:
+        if p != -1 and not (0 < p < (1 << 32) and k > 0 and (p == 2 or p % 2 == 1)):
+            return f"factor entry {p}^{k} outside the encoder's domain"
+    if c == 1:
+        return None
+    if c < maxlarge:
+        return None if large_ok(c) else f"single large prime {c} not usable"
+    if pq is None:
+        return None                      # dropped by add
+    if pq[0] * pq[1] != c:
+        return "cofactor is not p*q"
+    if not (large_ok(pq[0]) and large_ok(pq[1])):
+        return f"pair {pq} not usable"
+    return None
+
+
 def oracle(case, ans):
     op, a = case.op, case.args
     if ans in ("hang", "abort", "?") or ans.startswith("panic"):
         return f"no value returned ({ans})"
+    if op == "sieve_final":
+        parts = ans.split(" || ")
+        if len(parts) != 3:
+            return "malformed answer"
+        if not parts[0].startswith("ok"):
+            return f"sieve did not return factors ({parts[0]})"
+        if parts[1] == "-":
+            return None
+        n_s, _, rels, _ = parts[1].split(" ")
+        n = int(n_s)
+        if rels != "-":
+            for r in rels.split(";"):
+                rel = parse_rel(r)
+                if rel[1] != 1 or not rel_valid(n, rel):
+                    return f"final_step received a relation that is not a complete congruence: {r[:200]}"
+        if parts[2] != "-":
+            for d in map(int, parts[2].split(",")):
+                if not (1 < d < n and n % d == 0):
+                    return f"final_step returned {d}, not a proper divisor of {n}"
+        return None
+    if op == "sieve_history":
+        parts = ans.split(" || ")
+        if len(parts) != 3:
+            return "malformed answer"
+        if not parts[0].startswith("ok"):
+            return f"sieve did not return factors ({parts[0]})"
+        if parts[1] == "-":
+            return None
+        n_s, fb_s, ml_s, hist = parts[1].split(" ")
+        n, maxlarge = int(n_s), int(ml_s)
+        for it in hist.split(";"):
+            msg = contract_violation(n, maxlarge, it)
+            if msg:
+                return f"caller hands add a relation outside the stated contract: {msg}: {it[:200]}"
+        return oracle(Case("rs_history " + parts[1]), parts[2])
     if op == "rs_history":
         n = int(a[0])
         parsed = parse_history_answer(ans)
@@ -547,6 +659,16 @@ def oracle(case, ans):
 
 
 def klass(case, ans):
+    if case.op == "sieve_final":
+        parts = ans.split(" || ")
+        nd = 0 if len(parts) != 3 or parts[2] == "-" else parts[2].count(",") + 1
+        return f"sieve_final/{case.tag}/{parts[0].split(' ')[0]}/divisors={nd}"
+    if case.op == "sieve_history":
+        parts = ans.split(" || ")
+        if len(parts) == 3 and parts[1] != "-":
+            inner = klass(Case("rs_history " + parts[1], tag=case.tag), parts[2])
+            return "sieve_history/" + inner.split("/", 1)[1]
+        return f"sieve_history/{case.tag}/{parts[0].split(' ')[0]}"
     if case.op == "rs_history":
         parsed = parse_history_answer(ans)
         if parsed is None:
@@ -562,6 +684,8 @@ def klass(case, ans):
 
 
 def nontrivial(case, ans):
+    if case.op in ("sieve_history", "sieve_final"):
+        return " || " in ans and ans.split(" || ")[1] != "-"
     if case.op == "rs_history":
         parsed = parse_history_answer(ans)
         return bool(parsed) and any(news and tag[0] != "c" for tag, news in parsed[0])
